@@ -57,6 +57,8 @@ func main() {
 		res = runStore(a)
 	case "proxy":
 		res = runProxy(a)
+	case "disc":
+		res = runDisc(a)
 	default:
 		fmt.Fprintln(os.Stderr, "unknown engine", a.engine)
 		os.Exit(2)
